@@ -20,9 +20,18 @@ def table : List Site := Teleport.Gen.guards.map Site.ofRow
 
 def render (l : List String) : String := if l.isEmpty then "races=-" else "races=" ++ ",".intercalate l
 
+/-- recorded findings of the writer-path redial family whose racing accesses lie inside the socket's
+    reader object (bufio) rather than in a watched field of the site table: the old and the new reader
+    goroutine inside `socket.Read`, and `socket.Read` against `socket.Reset` (known_findings.json). The
+    detector exhibits them on rare schedules only (seed 2 of a multi-seed sweep, round 3), so they are
+    accepted alternatives of the `redial` scenario like the table-derived ones. Kept sorted after the
+    table-derived signatures of that scenario. -/
+def extraSigs (sc : String) : List String :=
+  if sc == "redial" then ["c14:race:socket.go:socket.Read|socket.Read", "c14:race:socket.go:socket.Read|socket.Reset"] else []
+
 def race (f : Fields) : String :=
   match f.get "scenario" with
-  | some sc => " || ".intercalate ((sublists (predictedSigs table sc)).map render)
+  | some sc => " || ".intercalate ((sublists (predictedSigs table sc ++ extraSigs sc)).map render)
   | none => "bad-case"
 
 end D14
